@@ -121,6 +121,7 @@ type Truth struct {
 	OuterEtype   int32
 	Flags        uint32
 	TktCName     []string
+	TktCNameType int32
 	TktCRealm    string
 	AuthTime     time.Time
 	Start        time.Time // effective start (starttime, else authtime)
@@ -276,6 +277,7 @@ func (m *Minter) Mint(spec ReqSpec, s time.Time, skew time.Duration, r *core.Rng
 		}
 	}
 	tr.Flags, tr.TktCName, tr.TktCRealm = etp.Flags, cname.Names, spec.CRealm
+	tr.TktCNameType = cname.Type
 	if hasDefect(ds, "ticket-usage") != nil {
 		tr.TicketUsage = rk.KUASRepEncPart
 	}
